@@ -484,9 +484,19 @@ pub struct CaseResult {
 }
 
 pub fn run_case(prop: &str, seed: u64, case: u64, len: usize, rep: &mut Report, verbose: bool) -> CaseResult {
+    run_case_with(prop, seed, case, len, rep, verbose, None)
+}
+
+/// `script`: enumerated mode - the initial world is the fixed small universe of `enum_world` and the k-th call is the
+/// script[k]-th entry of `enum_candidates` of the state reached (the history ends when the script does)
+pub fn run_case_with(prop: &str, seed: u64, case: u64, len: usize, rep: &mut Report, verbose: bool, script: Option<&[usize]>) -> CaseResult {
     crate::lockmon::activate(true);
     let rng = Rng::derive(seed, prop, case);
-    let (mut w, prof, grow_steps) = initial_world(prop, rng, case ^ seed.rotate_left(17));
+    let (mut w, prof, grow_steps) = match script {
+        None => initial_world(prop, rng, case ^ seed.rotate_left(17)),
+        Some(_) => enum_world(prop, rng),
+    };
+    let len = script.map_or(len, |s| s.len());
     let grow_prof = grow_profile();
     let mut ctx = StepCtx {
         prop,
@@ -513,7 +523,18 @@ pub fn run_case(prop: &str, seed: u64, case: u64, len: usize, rep: &mut Report, 
                 break;
             }
             // the generator itself calls public read-only API (list_valid_sub_elements, calc_element_insert_range, ...)
-            let gen = crate::panicmon::catch(|| w.gen_op(if step < grow_steps { &grow_prof } else { &prof }));
+            let gen = match script {
+                None => crate::panicmon::catch(|| w.gen_op(if step < grow_steps { &grow_prof } else { &prof })),
+                Some(sc) => {
+                    let cands = enum_candidates(&w);
+                    if sc[step] >= cands.len() {
+                        // the script addresses a candidate that does not exist in this state: the history is not a member of the enumeration
+                        result.steps = u64::MAX;
+                        break;
+                    }
+                    Ok(cands[sc[step]].clone())
+                }
+            };
             let op = match gen {
                 Ok(op) => op,
                 Err(ab) => {
@@ -608,6 +629,163 @@ pub fn run_case(prop: &str, seed: u64, case: u64, len: usize, rep: &mut Report, 
     result
 }
 
+/// the fixed small universe of the enumerated mode: one model, two files; packages A and B (A holds an ECU-INSTANCE A, a
+/// SYSTEM B with one reference to the ECU-INSTANCE and one dangling reference, and a sub package C; B holds an empty ELEMENTS)
+pub fn enum_world(prop: &str, rng: Rng) -> (World, Profile, usize) {
+    let mut w = World::new(rng);
+    let mut r2 = Rng::derive(1, "enum", 1);
+    let prof = profile_for(prop, &mut r2);
+    w.masks.no_cyclic_names = true;
+    let model = AutosarModel::new();
+    let v = AutosarVersion::Autosar_00050;
+    let f1 = model.create_file("enum1.arxml", v).unwrap();
+    let f2 = model.create_file("enum2.arxml", v).unwrap();
+    w.intern_file(&f1);
+    w.intern_file(&f2);
+    let pkgs = model.root_element().create_sub_element(ElementName::ArPackages).unwrap();
+    let pa = pkgs.create_named_sub_element(ElementName::ArPackage, "A").unwrap();
+    let pb = pkgs.create_named_sub_element(ElementName::ArPackage, "B").unwrap();
+    let ea = pa.create_sub_element(ElementName::Elements).unwrap();
+    let ecu = ea.create_named_sub_element(ElementName::EcuInstance, "A").unwrap();
+    let sys = ea.create_named_sub_element(ElementName::System, "B").unwrap();
+    let fx = sys.create_sub_element(ElementName::FibexElements).unwrap();
+    let r1 = fx.create_sub_element(ElementName::FibexElementRefConditional).and_then(|c| c.create_sub_element(ElementName::FibexElementRef)).unwrap();
+    r1.set_reference_target(&ecu).unwrap();
+    let r2e = fx.create_sub_element(ElementName::FibexElementRefConditional).and_then(|c| c.create_sub_element(ElementName::FibexElementRef)).unwrap();
+    let _ = r2e.set_attribute(AttributeName::Dest, CharacterData::Enum(autosar_data_specification::EnumItem::EcuInstance));
+    let _ = r2e.set_character_data("/B/A");
+    let sub = pa.create_sub_element(ElementName::ArPackages).unwrap();
+    let _ = sub.create_named_sub_element(ElementName::ArPackage, "C").unwrap();
+    let _ = pb.create_sub_element(ElementName::Elements).unwrap();
+    if matches!(prop, "C10" | "C13") {
+        // file sets of their own: package B lives in the second file only
+        let _ = pb.remove_from_file(&f1);
+    }
+    w.add_model(model);
+    w.refresh();
+    (w, prof, 0)
+}
+
+/// all calls of the enumerated mode in the current state, in a deterministic order (derived from the pre-order walk)
+pub fn enum_candidates(w: &World) -> Vec<Op> {
+    let mut out = Vec::new();
+    let Some(t) = w.trees.first() else { return out };
+    let id = |e: &Element| w.elem_ids.get(e).copied();
+    let mut ident: Vec<usize> = Vec::new();
+    let mut containers: Vec<(usize, ElementName)> = Vec::new();
+    let mut refs: Vec<usize> = Vec::new();
+    for n in &t.nodes {
+        let Some(i) = id(&n.elem) else { continue };
+        let name = n.elem.element_name();
+        if n.elem.is_identifiable() {
+            ident.push(i);
+        }
+        if name == ElementName::ArPackages || name == ElementName::Elements {
+            containers.push((i, name));
+        }
+        if n.elem.element_type().is_ref() {
+            refs.push(i);
+        }
+    }
+    const NAMES: [&str; 2] = ["A", "B"];
+    for e in &ident {
+        for n in NAMES {
+            out.push(Op::Rename { e: *e, item: n.to_string() });
+        }
+    }
+    for (c, kind) in &containers {
+        let child = if *kind == ElementName::ArPackages { ElementName::ArPackage } else { ElementName::EcuInstance };
+        for n in NAMES {
+            out.push(Op::CreateNamed { p: *c, name: child, item: n.to_string() });
+        }
+        for e in &ident {
+            out.push(Op::Move { p: *c, src: *e });
+            out.push(Op::Copy { p: *c, src: *e });
+        }
+        if let Some(first) = ident.first() {
+            out.push(Op::MoveAt { p: *c, src: *first, pos: 0 });
+        }
+    }
+    for e in &ident {
+        if let Ok(Some(p)) = w.elems[*e].parent() {
+            if let Some(pi) = id(&p) {
+                out.push(Op::Remove { p: pi, child: *e });
+            }
+        }
+    }
+    for r in &refs {
+        for e in &ident {
+            out.push(Op::SetRefTarget { e: *r, target: *e });
+        }
+        out.push(Op::SetData { e: *r, value: CharacterData::String("/B/B".to_string()) });
+        out.push(Op::RemoveData { e: *r });
+    }
+    out.push(Op::SortModel { m: 0 });
+    for (fi, _) in w.files.iter().enumerate().take(2) {
+        if let Some(e) = ident.get(1) {
+            out.push(Op::AddToFile { e: *e, f: fi });
+            out.push(Op::RemoveFromFile { e: *e, f: fi });
+        }
+    }
+    out.push(Op::RemoveFile { m: 0, f: 1 });
+    out
+}
+
+/// enumerated mode: every history of `depth` calls over the small universe (first level complete; deeper levels complete
+/// up to `cap` histories, beyond that evenly spaced), each followed by the monitors of the property after every call
+pub fn run_enumerated(prop: &str, rep: &mut Report, depth: usize, cap: usize) {
+    let seed = rep.seed;
+    // number of candidates in the initial state, and an upper bound for later states (the model grows by at most one element per call)
+    let (w0, _, _) = enum_world(prop, Rng::new(1));
+    let n0 = enum_candidates(&w0).len();
+    drop(w0);
+    let width = n0 + 12 * depth;
+    let total: usize = (0..depth).fold(1usize, |a, _| a.saturating_mul(width));
+    let stride = total.div_ceil(cap).max(1);
+    let shards = 64;
+    let prop_owned = prop.to_string();
+    crate::report::run_shards(rep, shards, crate::report::cpu_count(), 64, |shard, sub| {
+        let prop = prop_owned.as_str();
+        let mut k = shard * stride;
+        while k < total {
+            // decode k into a script (most significant digit first, so that evenly spaced k vary the later calls most)
+            let mut script = vec![0usize; depth];
+            let mut x = k;
+            for d in (0..depth).rev() {
+                script[d] = x % width;
+                x /= width;
+            }
+            let res = run_case_with(prop, seed, k as u64, depth, sub, false, Some(&script));
+            if res.steps != u64::MAX {
+                sub.count("enumerated.histories", 1);
+                sub.count("enumerated.calls", res.steps);
+                sub.eval(if res.mutations > 0 { Some(hash_str(&res.log.join("\n")) ^ 0x5eed) } else { None });
+                for (v, after) in res.viols {
+                    let sig = format!("{prop}:{}:{}:after={after}", v.rule, v.pred);
+                    sub.violation(
+                        &v.rule,
+                        &sig,
+                        &format!("{} (enumerated history {script:?})\n  history:\n    {}", v.detail, res.log.join("\n    ")),
+                        J::obj()
+                            .with("engine", J::s("hist"))
+                            .with("property", J::s(prop))
+                            .with("seed", J::Int(seed as i64))
+                            .with("case", J::Int(k as i64))
+                            .with("len", J::Int(depth as i64))
+                            .with("script", J::Arr(script.iter().map(|x| J::Int(*x as i64)).collect()))
+                            .with("history", J::arr_of_str(res.log.iter().cloned())),
+                    );
+                }
+            }
+            k += shards * stride;
+        }
+    });
+    rep.extra.insert("enumerated.candidates_in_the_initial_state".into(), J::Int(n0 as i64));
+    rep.extra.insert("enumerated.depth".into(), J::Int(depth as i64));
+    rep.extra.insert("enumerated.stride".into(), J::Int(stride as i64));
+    rep.require("enumerated.histories", 1_000);
+}
+
 pub fn run(prop: &str, rep: &mut Report, tier: &str) {
     setup_monitors();
     let plan = plan(prop, tier);
@@ -652,6 +830,14 @@ pub fn run(prop: &str, rep: &mut Report, tier: &str) {
         }
     });
     rep.require("successful_structural_mutations", 1000);
+    if matches!(prop, "C03" | "C04" | "C05" | "C06" | "C10" | "C11" | "C13") {
+        // bounded exhaustive part: all histories of 3 calls (thorough: 4, evenly spaced beyond the cap) over the small universe
+        if tier == "thorough" {
+            run_enumerated(prop, rep, 4, 3_000_000);
+        } else {
+            run_enumerated(prop, rep, 3, 400_000);
+        }
+    }
     match prop {
         "C03" => {
             rep.require("monitor.elements_inspected", 100_000);
@@ -693,7 +879,8 @@ pub fn replay(prop: &str, path: &str) -> i32 {
     let case = r.get("case").and_then(J::as_i64).unwrap_or(0) as u64;
     let len = r.get("len").and_then(J::as_i64).unwrap_or(50) as usize;
     let mut rep = Report::new(prop, "quick", seed);
-    let res = run_case(prop, seed, case, len, &mut rep, true);
+    let script: Option<Vec<usize>> = r.get("script").and_then(J::as_arr).map(|a| a.iter().filter_map(|x| x.as_i64().map(|v| v as usize)).collect());
+    let res = run_case_with(prop, seed, case, len, &mut rep, true, script.as_deref());
     if res.viols.is_empty() {
         println!("replay: no violation reproduced");
         0
